@@ -53,6 +53,8 @@ type Loader struct {
 	refLoop string
 	// set by resolvePathItemRef on return: the path item is a reference still waiting for its object
 	pathItemWaiting bool
+	// a reference that waited for another one resolved to an object of another kind
+	refKindErr error
 }
 
 // NewLoader returns an empty Loader
@@ -68,6 +70,7 @@ func (loader *Loader) resetVisitedPathItemRefs() {
 	loader.visitedPath = nil
 	loader.backtrack = make(map[string][]func(value any))
 	loader.refLoop = ""
+	loader.refKindErr = nil
 }
 
 // LoadFromURI loads a spec from a remote URL
@@ -206,6 +209,9 @@ func (loader *Loader) ResolveRefsIn(doc *T, location *url.URL) (err error) {
 	defer func() {
 		if err == nil && loader.refLoop != "" {
 			err = fmt.Errorf("reference %q is part of a loop of references that reaches no object", loader.refLoop)
+		}
+		if err == nil && loader.refKindErr != nil {
+			err = loader.refKindErr
 		}
 	}()
 
@@ -369,6 +375,13 @@ func (loader *Loader) unvisitRef(ref string, value any) {
 	delete(loader.visitedRefs, ref)
 	delete(loader.backtrack, ref)
 	loader.visitedPath = loader.visitedPath[:len(loader.visitedPath)-1]
+}
+
+// wrongKind records that ref, which was waited for by a reference of one kind, resolved to an object of another.
+func (loader *Loader) wrongKind(ref string, got, want any) {
+	if loader.refKindErr == nil {
+		loader.refKindErr = fmt.Errorf("reference %q resolves to %T where %T is expected", ref, got, want)
+	}
 }
 
 func (loader *Loader) shouldVisitRef(ref string, fn func(value any)) bool {
@@ -648,7 +661,12 @@ func (loader *Loader) resolveHeaderRef(doc *T, component *HeaderRef, documentPat
 			return nil
 		}
 		if !loader.shouldVisitRef(ref, func(value any) {
-			component.Value = value.(*Header)
+			v, ok := value.(*Header)
+			if !ok {
+				loader.wrongKind(ref, value, v)
+				return
+			}
+			component.Value = v
 			refPath, _ := loader.resolveRefPath(ref, documentPath)
 			component.setRefPath(refPath)
 		}) {
@@ -749,7 +767,12 @@ func (loader *Loader) resolveParameterRef(doc *T, component *ParameterRef, docum
 			return nil
 		}
 		if !loader.shouldVisitRef(ref, func(value any) {
-			component.Value = value.(*Parameter)
+			v, ok := value.(*Parameter)
+			if !ok {
+				loader.wrongKind(ref, value, v)
+				return
+			}
+			component.Value = v
 			refPath, _ := loader.resolveRefPath(ref, documentPath)
 			component.setRefPath(refPath)
 		}) {
@@ -817,7 +840,12 @@ func (loader *Loader) resolveRequestBodyRef(doc *T, component *RequestBodyRef, d
 			return nil
 		}
 		if !loader.shouldVisitRef(ref, func(value any) {
-			component.Value = value.(*RequestBody)
+			v, ok := value.(*RequestBody)
+			if !ok {
+				loader.wrongKind(ref, value, v)
+				return
+			}
+			component.Value = v
 			refPath, _ := loader.resolveRefPath(ref, documentPath)
 			component.setRefPath(refPath)
 		}) {
@@ -887,7 +915,12 @@ func (loader *Loader) resolveResponseRef(doc *T, component *ResponseRef, documen
 			return nil
 		}
 		if !loader.shouldVisitRef(ref, func(value any) {
-			component.Value = value.(*Response)
+			v, ok := value.(*Response)
+			if !ok {
+				loader.wrongKind(ref, value, v)
+				return
+			}
+			component.Value = v
 			refPath, _ := loader.resolveRefPath(ref, documentPath)
 			component.setRefPath(refPath)
 		}) {
@@ -970,7 +1003,12 @@ func (loader *Loader) resolveSchemaRef(doc *T, component *SchemaRef, documentPat
 			return nil
 		}
 		if !loader.shouldVisitRef(ref, func(value any) {
-			component.Value = value.(*Schema)
+			v, ok := value.(*Schema)
+			if !ok {
+				loader.wrongKind(ref, value, v)
+				return
+			}
+			component.Value = v
 			refPath, _ := loader.resolveRefPath(ref, documentPath)
 			component.setRefPath(refPath)
 		}) {
@@ -1056,7 +1094,12 @@ func (loader *Loader) resolveSecuritySchemeRef(doc *T, component *SecurityScheme
 			return nil
 		}
 		if !loader.shouldVisitRef(ref, func(value any) {
-			component.Value = value.(*SecurityScheme)
+			v, ok := value.(*SecurityScheme)
+			if !ok {
+				loader.wrongKind(ref, value, v)
+				return
+			}
+			component.Value = v
 			refPath, _ := loader.resolveRefPath(ref, documentPath)
 			component.setRefPath(refPath)
 		}) {
@@ -1097,7 +1140,12 @@ func (loader *Loader) resolveExampleRef(doc *T, component *ExampleRef, documentP
 			return nil
 		}
 		if !loader.shouldVisitRef(ref, func(value any) {
-			component.Value = value.(*Example)
+			v, ok := value.(*Example)
+			if !ok {
+				loader.wrongKind(ref, value, v)
+				return
+			}
+			component.Value = v
 			refPath, _ := loader.resolveRefPath(ref, documentPath)
 			component.setRefPath(refPath)
 		}) {
@@ -1142,7 +1190,12 @@ func (loader *Loader) resolveCallbackRef(doc *T, component *CallbackRef, documen
 			return nil
 		}
 		if !loader.shouldVisitRef(ref, func(value any) {
-			component.Value = value.(*Callback)
+			v, ok := value.(*Callback)
+			if !ok {
+				loader.wrongKind(ref, value, v)
+				return
+			}
+			component.Value = v
 			refPath, _ := loader.resolveRefPath(ref, documentPath)
 			component.setRefPath(refPath)
 		}) {
@@ -1198,7 +1251,12 @@ func (loader *Loader) resolveLinkRef(doc *T, component *LinkRef, documentPath *u
 			return nil
 		}
 		if !loader.shouldVisitRef(ref, func(value any) {
-			component.Value = value.(*Link)
+			v, ok := value.(*Link)
+			if !ok {
+				loader.wrongKind(ref, value, v)
+				return
+			}
+			component.Value = v
 			refPath, _ := loader.resolveRefPath(ref, documentPath)
 			component.setRefPath(refPath)
 		}) {
@@ -1248,7 +1306,12 @@ func (loader *Loader) resolvePathItemRef(doc *T, pathItem *PathItem, documentPat
 			return
 		}
 		if !loader.shouldVisitRef(ref, func(value any) {
-			*pathItem = *value.(*PathItem)
+			v, ok := value.(*PathItem)
+			if !ok {
+				loader.wrongKind(ref, value, v)
+				return
+			}
+			*pathItem = *v
 		}) {
 			waiting = true
 			return nil
